@@ -4,9 +4,11 @@
    MODEL: `Pipeline.pipelineS` (Model/Pipeline) run stage by stage on the same bytes; the answer is
    the stage and class of the first outcome that is not `ok`:
        ok | input_error@<stage> | foreign@<stage>:<kind> | unmodelled@<stage>:<why> | skipped:<why>
-   `unmodelled` = the model reached a `Residual` (no Lean model: VGM play loop, linker, a
-   definition or platform command outside C09/C11's models); the comparison then only says that
-   the implementation got at least that far.  `skipped` = the input is larger than the bound
+   `unmodelled` = the model reached a `Residual` (no Lean model: the VGM play loop for a song
+   outside the subset of Model/MdDriver, a definition or platform command outside C09/C11's
+   models); the comparison then only says that the implementation got at least that far.
+   The link stage is `Pipeline.linkStage` (Model/Linker on the exported container), the VGM export
+   `MdDriver.exportSong` (C07/C08's driver model).  `skipped` = the input is larger than the bound
    for the model stream (the implementation still runs it under the sanitizers).
    JUDGE: the outcome set of the property applied to the implementation's answer.
    stream `wavfix`: `Wave_Bank::add_sample(Tag)` on canonical and malformed WAV files in a forked
@@ -25,18 +27,47 @@ def maxTextOpt : Nat := 1500
 def maxEventsOpt : Nat := 120
 /-- values of one tag above which the definition compilers of Model/MdsData are not run -/
 def maxTagValues : Nat := 100
+/-- ticks of one channel track above which the driver model (one iteration per 1/60 s) is not run -/
+def maxVgmTicks : Nat := 1500
+/-- smallest tempo parameter (`t`, `T`) with which it is run -/
+def minVgmTempo : Int := 24
+
+/-- the VGM export of this song would take the driver model too many iterations -/
+def vgmTooLong (song : Song) : Bool :=
+  song.tracks.any (fun p => p.2.any fun e =>
+    (e.type == Tables.ev_TEMPO || e.type == Tables.ev_TEMPO_BPM) && decide (e.param < minVgmTempo)) ||
+  song.tracks.any fun p =>
+    p.1 < 16 &&
+    match Player.runValidator song p.2 Refs.validatorFuel Player.initState with
+    | .ok s => decide (s.acc.playTime > maxVgmTicks)
+    | .error _ => false
 
 /-- why the model is not run on this parsed input (`none` = it is) -/
-def tooBig (opt : Bool) (st : Mml.MmlState) : Option String :=
+def tooBig (opt : Bool) (fmt : Format) (st : Mml.MmlState) : Option String :=
   let events := (st.song.tracks.map fun p => p.2.events.length).foldl (· + ·) 0
   let tags := tagListOf (Refs.replayTags st.song.tagCalls)
   if opt && events > maxEventsOpt then some "optimiser-input" else
-  if tags.any (fun kv => kv.2.length > maxTagValues) then some "long-definition" else none
+  if tags.any (fun kv => kv.2.length > maxTagValues) then some "long-definition" else
+  if fmt == .vgm && vgmTooLong (songOf st) then some "vgm-length" else none
 
 def unmodelled : Residual :=
-  { vgmPlay := fun _ _ => .foreign "UNMODELLED:vgm-play-loop",
-    link := fun _ => .foreign "UNMODELLED:linker",
+  { vgmPlay := fun _ _ => .foreign "UNMODELLED:vgm-outside-driver-subset",
     mdsGap := fun _ => .foreign "UNMODELLED:definition-or-platform-command-outside-the-model" }
+
+/-- the decidable side conditions of `C15_optimize_routed` on the parsed song, re-stated over Bool
+(the Driver files use core only; Proofs/PipelineOpt has the `Prop` version `OptDomain`) -/
+def inOptDomain (text : List Nat) : Bool :=
+  match parseStage text with
+  | .ok st =>
+    let song := songOf st
+    let ids := song.tracks.map (·.1)
+    let events := (song.tracks.map fun p => p.2.length).foldl (· + ·) 0
+    (ids.zip (ids.drop 1)).all (fun p => p.1 < p.2) && ids.all (· < 32767) &&
+    song.tracks.all (fun p => p.2.length < 32767 &&
+      p.2.all fun e => (e.type != Tables.ev_LOOP_BREAK || (e.on == 0 && e.off == 0)) &&
+        (!(e.type == Tables.ev_JUMP || e.type == Tables.ev_NOTE) || (decide (-32768 ≤ e.param) && decide (e.param < 32768)))) &&
+    decide (Opt.initialSubId song + Int.ofNat events < 32767)
+  | _ => true
 
 def stageName : Stage → String
   | .parse => "parse" | .validate => "validate" | .optimize => "optimize" | .export => "export" | .link => "link"
@@ -79,7 +110,7 @@ def model (arg : String) : String :=
   | none => "bad-request"
   | some r =>
     if r.text.length > (if r.opt then maxTextOpt else maxText) then "skipped:size" else
-    match (match parseStage r.text with | .ok st => tooBig r.opt st | _ => none) with
+    match (match parseStage r.text with | .ok st => tooBig r.opt r.fmt st | _ => none) with
     | some why => s!"skipped:{why}"
     | none =>
     let (stage, out) := pipelineS unmodelled r.files r.opt r.fmt { steps := Refs.validatorFuel, passes := 100000 } r.text
@@ -90,6 +121,8 @@ def model (arg : String) : String :=
     | .inputError _ => s!"input_error@{stageName stage}"
     | .foreign k =>
       if k.startsWith "UNMODELLED:" then s!"unmodelled@{stageName stage}:{(k.drop 11).toString}"
+      -- `-O` outside the side conditions of the optimise-stage theorem (never within the stream's bounds)
+      else if r.opt && !inOptDomain r.text then s!"unmodelled@optimize:outside-OptDomain"
       -- the step budgets of the executable model (validator 3·10^6 steps, optimiser 10^5 passes) are a
       -- bound of the model stream, not a prediction: the theorems quantify over all budgets
       else if k == "hang" then s!"skipped:model-step-budget@{stageName stage}"
